@@ -415,6 +415,7 @@ def plainItems : Call → List Item
     | some k => [.err k]
     | none => plainTurns turns
   | .release => []
+  | .releaseOne _ => []
 
 def optPtr : Option Wire → List (Nat × Nat)
   | some w => wirePtr w
@@ -547,6 +548,17 @@ theorem runCall_spec (w : World) (c : Call) (hwb : c.wellBehaved = true) (hI : S
   | release =>
     obtain ⟨h1, h2, h3⟩ := releaseAll_spec w.held w.segs [] hI (by simpa using hA)
     exact ⟨h1, h2, h3, rfl⟩
+  | releaseOne i =>
+    simp only [runCall]
+    cases hp : w.held[i]? with
+    | none => exact ⟨rfl, hI, hA, rfl⟩
+    | some p =>
+      obtain ⟨f1, _, f3⟩ := freeAt_spec w.segs p.1 p.2 hI
+      refine ⟨rfl, f1, ?_, rfl⟩
+      apply f3 _ _ hA
+      intro q hq hne
+      simp only [List.mem_filter, bne_iff_ne, ne_eq]
+      exact ⟨hq, fun h => hne (by rw [h])⟩
   | unary adv param via outcome hold =>
     simp only [Call.wellBehaved] at hwb
     obtain ⟨segs1, wire, hcs, hn1, hI1, hW1, _, _, hA1⟩ :=
@@ -639,10 +651,16 @@ theorem serveShm_plain (segs : Segs) (c : Option Nat) (b : B) :
 
 /-- the same call issued by a client without shared memory: same answers, world untouched -/
 theorem runCall_plain (w : World) (c : Call) :
-    runCall w c.plain = (match c with | .release => { w with segs := releaseAll w.segs w.held, held := [] } | _ => w,
+    runCall w c.plain = (match c with
+      | .release => { w with segs := releaseAll w.segs w.held, held := [] }
+      | .releaseOne i => (runCall w (.releaseOne i)).1
+      | _ => w,
       plainItems c) := by
   cases c with
   | release => rfl
+  | releaseOne i =>
+    simp only [Call.plain, plainItems, runCall]
+    cases w.held[i]? <;> rfl
   | unary adv param via outcome hold =>
     simp only [Call.plain, runCall, clientSend, serveShm_plain]
     cases outcome with
